@@ -126,14 +126,25 @@ def _kw_values(ex, st):
     return v
 
 
+def _second_splitter(ex, st):
+    """a second splitter object in exactly the same state (same symbolic field values, distinct identity)"""
+    st.ghost['SELF2'] = make_splitter(ex, st)
+
+
 @contract('sqlparse.engine.statement_splitter.StatementSplitter._change_splitlevel', case='keyword spelling')
 class csl_spelling:
-    """C11 at the splitter: for a keyword token the decision depends on the value only through its upper-cased,
-    whitespace-collapsed form - every comparison in the body reads `unified`, never the raw value.  (Checked as: the
-    raw value is read exactly once, to compute unified = ' '.join(value.upper().split()); structural obligation
-    generated from the AST below; the transition itself is proved in the other cases.)"""
+    """C11 at the splitter, as a relational (two-run) contract: for a keyword token the transition depends on the value
+    only through its upper-cased, whitespace-collapsed form.  The body is run a second time (post_bind R2) on a second
+    splitter in the same state with ANOTHER spelling of the same keyword (OTHER: any string with the same
+    ' '.join(v.upper().split())); the two runs return the same level change and leave the same state."""
     params = {'self': make_splitter, 'ttype': 'tt', 'value': _kw_values}
+    ghost_init = staticmethod(_second_splitter)
     requires = ['ttype in T.Keyword']
-    ensures = ['result == -1 or result == 0 or result == 1']
+    post_bind = {'R2': 'SELF2._change_splitlevel(ttype, OTHER)'}
+    ensures = ['result == -1 or result == 0 or result == 1', 'result == R2',
+               'self._in_declare == SELF2._in_declare', 'self._in_case == SELF2._in_case',
+               'self._is_create == SELF2._is_create', 'self._begin_depth == SELF2._begin_depth',
+               'self._in_loop_header == SELF2._in_loop_header', 'self.level == SELF2.level',
+               'self.consume_ws == SELF2.consume_ws']
     raises = []
     serves = ['C11']
